@@ -227,6 +227,18 @@ class Tr:
             raise Untranslatable(f"unknown name {node.id}")
         if isinstance(node, ast.Dict) and not node.keys:
             return [], "[]", ("Dict", "?", "?")
+        if isinstance(node, ast.List):
+            bs, cs, ts = [], [], []
+            for el in node.elts:
+                b, c, t = self.E(el, env)
+                bs += b
+                cs.append(c)
+                ts.append(t)
+            if not ts:
+                return [], "[]", ("List", "?")
+            if any(t != ts[0] for t in ts):
+                raise Untranslatable(f"heterogeneous list {src}")
+            return bs, "[" + ", ".join(cs) + "]", ("List", ts[0])
         if isinstance(node, ast.Attribute) and node.attr in self.attrs and not (
                 isinstance(node.value, ast.Name) and node.value.id == "self" and ("self_" + node.attr) in env):
             b, c, t = self.E(node.value, env)
@@ -400,6 +412,11 @@ class Tr:
             if bc:
                 raise Untranslatable(f"fallible element test in {src}")
             return b, f"(List.{fn} {lst} (fun {pat} => decide {cc}))", "Bool"
+        if fn == "reversed" and len(node.args) == 1:
+            b, c, t = self.E(node.args[0], env)
+            if not (isinstance(t, tuple) and t[0] == "List"):
+                raise Untranslatable(f"reversed of {t}")
+            return b, f"(List.reverse {c})", t
         if fn in ("len",):
             b, c, t = self.E(node.args[0], env)
             if not (isinstance(t, tuple) and t[0] == "List"):
@@ -591,7 +608,9 @@ class Tr:
         if isinstance(st, ast.Raise):
             exc = st.exc
             name = dotted(exc.func) if isinstance(exc, ast.Call) else dotted(exc)
-            return [f"throw {ERRS.get(name, 'Err.other')}"]
+            errs = dict(ERRS)
+            errs.update(self.spec.get("raises", {}))
+            return [f"throw {errs.get(name, 'Err.other')}"]
         if isinstance(st, ast.Continue):
             return loop[0](env)
         if isinstance(st, ast.Break):
@@ -645,6 +664,14 @@ class Tr:
     def assign(self, target, value, rest, env, k, loop):
         post = []
         if (isinstance(value, ast.Call) and isinstance(value.func, ast.Attribute) and value.func.attr == "pop"
+                and len(value.args) == 0):
+            # x = lst.pop(): read the last element, then drop it
+            lst = self.target_name(value.func.value) if not isinstance(value.func.value, ast.Name) else value.func.value.id
+            if lst not in env:
+                raise Untranslatable(f"unknown list {lst}")
+            x = self.fresh()
+            b, c, t = [f"let ({x}, {lst}) ← Py.popLast {lst}"], x, env[lst][1]
+        elif (isinstance(value, ast.Call) and isinstance(value.func, ast.Attribute) and value.func.attr == "pop"
                 and len(value.args) == 1 and isinstance(value.args[0], ast.Constant) and value.args[0].value == 0):
             # x = lst.pop(0): read the head, then drop it
             lst = self.target_name(value.func.value) if not isinstance(value.func.value, ast.Name) else value.func.value.id
